@@ -805,7 +805,7 @@ func S10(rc *RC) {
 // insensitive to renaming; it demands only that the marking happens in *at least* the cases
 // below (marking more is conservative and allowed).
 func S12(rc *RC) {
-	rc.S.Declare("S12", "contiguity marker: in AP.S the result is marked NonContiguous at least when an axis other than the outermost one (axis 0 for row-major or vectors, the last axis otherwise) of a non-vector is sliced, or a step > 1 is taken; the marked order is the one handed to MakeAP", 2)
+	rc.S.Declare("S12", "contiguity marker: in AP.S the result is marked NonContiguous at least when an axis other than the outermost one (axis 0 for row-major or vectors, the last axis otherwise) of a non-vector is sliced, when any axis of a lazily transposed non-vector pattern is sliced, or when a step > 1 is taken; the marked order is the one handed to MakeAP", 2)
 	key := "tensor.(*AP).S"
 	fi := anchor(rc, "S12", key)
 	if fi == nil {
@@ -903,7 +903,7 @@ func S12(rc *RC) {
 		return s
 	}
 	markedS := ren(marked.String())
-	goal := ir.ParseBool("(((SL != nil) && (!$r.IsVector() && (I != OUTER))) || (STEP > 1))")
+	goal := ir.ParseBool("(((SL != nil) && (!$r.IsVector() && ((I != OUTER) || $r.o.IsTransposed()))) || (STEP > 1))")
 	got := ir.ParseBool(markedS)
 	var bad []string
 	if !ir.Implies([]*ir.BExpr{goal}, got) {
